@@ -210,6 +210,17 @@ void h_var_observers(void) { ARB_VT(v); view_t o = vt_view(&v); unsigned i = o.i
 void h_var_rel(void) { ARB_VT(a); ARB_VT(b); int c = sp_cmp(vt_view(&a), vt_view(&b));
   REL6(vt, &a, &b, c, "variant ==,!=,<,<=,>,>= for all nine index pairs: by index, then by the value of the common alternative"); VF_REACH(); }
 
+/*@GROUP name=var_rel_partial props=C07,C02 kind=F@*/
+void h_var_rel_partial(void) { /* [variant.relops]: different indices compare by index; same index applies THE SAME operator to the values (so NaN makes <,<=,>,>=,== all false) */
+  VF_INPUT(unsigned char, ia); VF_INPUT(unsigned char, ib); VF_INPUT(int, xa); VF_INPUT(int, xb); VF_INPUT(unsigned, ba); VF_INPUT(unsigned, bb); __CPROVER_assume(ia <= 1 && ib <= 1);
+  union { unsigned u; float f; } ua, ub; ua.u = ba; ub.u = bb; float fa = ua.f, fb = ub.f;      /* every bit pattern: NaNs, infinities, signed zeros */
+  unsigned e;
+  if (ia != ib) e = 2U | (ia < ib ? (4U | 8U) : (16U | 32U));
+  else if (ia == 0) e = (xa == xb ? 1U : 2U) | (xa < xb ? 4U : 0U) | (xa <= xb ? 8U : 0U) | (xa > xb ? 16U : 0U) | (xa >= xb ? 32U : 0U);
+  else e = (fa == fb ? 1U : 0U) | (fa != fb ? 2U : 0U) | (fa < fb ? 4U : 0U) | (fa <= fb ? 8U : 0U) | (fa > fb ? 16U : 0U) | (fa >= fb ? 32U : 0U);
+  VF_ASSERT(vf_rel6(ia, xa, fa, ib, xb, fb) == e, "variant<int,float> ==,!=,<,<=,>,>=: by index, then the same operator on the values (partial order: NaN)");
+  VF_REACH(); }
+
 /*@GROUP name=var_visit props=C07,C02,C05 kind=F@*/
 void h_var_visit(void) { ARB_VT(v); ARB_LOG(lg); ARB_LOG(l0); VF_INPUT(unsigned char, which); view_t o = vt_view(&v);
   VF_ASSERT(visit0(&l0) == 42 && l0.calls == 1, "visit(f) without variants calls f() once and returns its result");
